@@ -42,10 +42,43 @@ def dyn_sized_fixed_fields(prepared):
     return out
 
 
+def constants_violations(t, key, seen, path=""):
+    """`C01_constants`: the min/max size constants of a structure are the same on every buffer
+    (the empty one included) and bracket every size the view reports:
+    MinSizeIn… ≤ SizeIn… ≤ MaxSizeIn…  (doc/cpp-reference.md: "the maximum/minimum size of the
+    structure in any valid configuration").  Recurses into nested structure observations."""
+    out = []
+    if t["k"] == "array":
+        for i, e in enumerate(t["elems"]):
+            out += constants_violations(e, key + ("[]",), seen, "%s[%d]" % (path, i))
+        return out
+    if t["k"] != "struct":
+        return out
+    consts = {}
+    for n, h, o in t["fields"]:
+        if n.startswith("$max_size_in_") or n.startswith("$min_size_in_"):
+            if h != "T" or not o.get("ok") or o.get("value") is None:
+                out.append("%s.%s is not a readable constant (has=%s %r)" % (path, n, h, o))
+            else:
+                consts[n[:4]] = int(o["value"])
+                old = seen.setdefault(key + (n,), o["value"])
+                if old != o["value"]:
+                    out.append("%s.%s changes with the buffer: %s vs %s" % (path, n, old, o["value"]))
+        elif o.get("k") in ("struct", "array"):
+            out += constants_violations(o, key + (n,), seen, path + "." + n)
+    if t["size_known"]:
+        if "$min" in consts and t["size"] < consts["$min"]:
+            out.append("%s: size %d < MinSize %d" % (path, t["size"], consts["$min"]))
+        if "$max" in consts and t["size"] > consts["$max"]:
+            out.append("%s: size %d > MaxSize %d" % (path, t["size"], consts["$max"]))
+    return out
+
+
 def _check_case_outputs(chk, case, sweep, answers, stats):
     """Spec oracles on the real outputs.  Returns list of parsed trees (None where crashed)."""
     trees = []
     prev = None
+    seen_consts = {}
     for (cmd, si, pv, data, g), ans in zip(sweep, answers):
         if ans is None:
             trees.append(None)
@@ -71,6 +104,14 @@ def _check_case_outputs(chk, case, sweep, answers, stats):
                     "prefix keeps its value on the longer one", "differences": bad[:8]},
                     key=key)
         prev = (g, t, cmd, ans)
+        # (1b) size constants
+        cbad = constants_violations(t, (si.name, tuple(pv)), seen_consts)
+        stats["constants_checked"] += 1
+        if cbad:
+            stats["constants_violations"] += 1
+            chk.violation("input", {"module": case.text, "case": case.name, "command": cmd, "observed": ans,
+                                    "expected": "Min/MaxSizeIn… are constants and bracket the reported size",
+                                    "differences": cbad[:8]})
         # (2) reference semantics
         ref = viewcorr.reference_obs(case, si, pv, data)
         if ref is not None:
@@ -78,6 +119,7 @@ def _check_case_outputs(chk, case, sweep, answers, stats):
             d = embref.diff(t, ref)
             if d:
                 stats["reference_diffs"] += 1
+            if d and stats["reference_diffs"] <= 10:
                 chk.violation("input", {"module": case.text, "case": case.name, "command": cmd,
                                         "observed": ans, "expected": "reference semantics (embref)",
                                         "differences": d[:8]})
